@@ -248,10 +248,11 @@ func (s *ServantProxy) doInvoke(ctx context.Context, msg *Message, timeout time.
 	readCh := make(chan *requestf.ResponsePacket)
 	adp.resp.Store(msg.Req.IRequestId, readCh)
 	defer func() {
-		CheckPanic()
 		atomic.AddInt32(&s.queueLen, -1)
 		adp.resp.Delete(msg.Req.IRequestId)
 	}()
+	// recover() only works when the deferred function calls it directly
+	defer CheckPanic()
 	if err := adp.SendContext(ctx, msg.Req); err != nil {
 		adp.failAdd()
 		return err
